@@ -28,12 +28,23 @@ inductive Atom where
       object, a plain class, an object with a catch-all `__getattr__`, a module, a function, … (`kind`, `n`
       name the object; it is handed through as the very same object) -/
   | obj (kind n : Nat)
+  /-- twins of the scalars: equal (`==`, same hash) to `int` / `str` values but of another exact class -/
+  | bool (b : Bool)          -- True == 1, False == 0
+  | float (n : Nat)          -- float(n) == n
+  | strsub (n : Nat)         -- an instance of a `str` subclass equal to `str n`
   deriving DecidableEq, Repr, FromJson, ToJson, Inhabited
 
 /-- int / str / None: what the symbolic scalar-wrapping serializer wraps -/
 def Atom.isScalar : Atom → Bool
-  | .obj _ _ => false
-  | _ => true
+  | .int _ | .str _ | .none => true
+  | _ => false
+
+/-- the representative of the `==` class of a leaf value (True ↦ 1, 2.0 ↦ 2, a str-subclass value ↦ the str) -/
+def Atom.norm : Atom → Atom
+  | .bool b => .int (if b then 1 else 0)
+  | .float n => .int n
+  | .strsub n => .str n
+  | a => a
 
 inductive CKind where
   | list | tuple
@@ -80,6 +91,7 @@ inductive TyTag where
   | set | frozenset | dict | odict
   | cls (id : Nat)
   | obj (kind : Nat)      -- the class of an opaque object (never listed in a filter)
+  | bool | float | strsub
   deriving DecidableEq, Repr, FromJson, ToJson, Inhabited
 
 inductive Filter where
@@ -164,6 +176,9 @@ structure Obs where
   faultFired : Bool
   /-- an identical second call (same argument, same options, after whatever ran in between) gave the same -/
   stable : Bool
+  /-- how often the filter / the value_serializer was called (when passed, and the call returned) -/
+  filterCalls : Option Nat
+  serCalls : Option Nat
   deriving Repr, FromJson, ToJson, Inhabited
 
 /-! ## The fragment of Python used: hashability, `==` on hashable values, container constructors -/
@@ -226,7 +241,7 @@ def all2 {α β : Type} (p : α → β → Bool) : List α → List β → Bool
     frozensets as sets, serializer results by payload, instances by identity (so never equal). -/
 def pyEqN : Nat → Out → Out → Bool
   | 0, _, _ => false
-  | _ + 1, .atom a, .atom b => a == b
+  | _ + 1, .atom a, .atom b => a.norm == b.norm
   | n + 1, .ser c f v, .ser c' f' v' => c == c' && f == f' && pyEqN n v v'
   | n + 1, .coll _ k xs, .coll _ k' ys =>
     if k.isTupleish && k'.isTupleish then all2 (pyEqN n) xs ys
@@ -328,6 +343,9 @@ def tyOf : PVal → TyTag
   | .atom (.str _) => .str
   | .atom .none => .noneType
   | .atom (.obj k _) => .obj k
+  | .atom (.bool _) => .bool
+  | .atom (.float _) => .float
+  | .atom (.strsub _) => .strsub
   | .inst c _ _ => .cls c
   | .coll .list _ => .list
   | .coll .tuple _ => .tuple
@@ -694,9 +712,25 @@ def roundtripApplies (c : Case) : Bool :=
   | .inst _ h fs => h.isNone && fs.all (fun p => isAtom p.2 && publicName p.1.name && p.1.init)
   | _ => false
 
+/-- the filter and the serializer are consulted once per field occurrence (and the serializer once per leaf
+    below field level): no memo, no skipping.  `none`: the callback is not passed, or its calls are not
+    modelled (substituting serializer: it also runs inside the conversion of its own results). -/
+def expectedCalls (c : Case) (s : Site) : Option Nat :=
+  if c.activeSubst.isSome then none
+  else match s with
+    | .filter => if c.filter == .none then none else some (calls c .filter)
+    | .ser => if c.api == .asdict && c.ser != .off then some (calls c .ser) else none
+    | _ => none
+
+def isOkE : Except String Out → Bool
+  | .ok _ => true
+  | .error _ => false
+
 def model (c : Case) : Obs :=
   { result := Res.ofExcept (run c), argUnchanged := true,
     roundtrip := if roundtripApplies c then some true else none,
-    faultFired := fires c, stable := true }
+    faultFired := fires c, stable := true,
+    filterCalls := if isOkE (run c) then expectedCalls c .filter else none,
+    serCalls := if isOkE (run c) then expectedCalls c .ser else none }
 
 end Attrs.C13
